@@ -65,7 +65,7 @@ def floors(tier):
     scale = 1 if tier == 'quick' else 10
     out = {'evaluations': 6000 * scale, 'conforming_checked': 400 * scale, 'mutants_checked': 2500 * scale,
            'schema_checked': 500 * scale, 'schema_fully_named': 250 * scale, 'built_fluent': 3000 * scale,
-           'built_raw': 3000 * scale, 'built_split': 15 * scale, 'directed_checked': 40}
+           'built_raw': 3000 * scale, 'built_split': 15 * scale, 'directed_checked': 40, 'set_query_checked': 2500}
     for rule in RULES:
         out[f'rule_{rule}'] = (40 if rule != 'set-schema' else 15) * (1 if tier == 'quick' else 10)
     return out
@@ -365,6 +365,65 @@ def run(ctx):
                 raise g.DslgenError(f'directed case {tag} is unspecified: {g.unspecified(ast)}')
             check_candidate(ctx, g, dsl, ast, rule, None, tag=tag)
         check_raw_kind_strings(ctx, g, dsl)
+    check_set_queries(ctx, g, dsl)
+
+
+def check_set_queries(ctx, g, dsl, only=None):
+    """A set statement queried directly (``set.query``): the queried source provides exactly what the set's (left)
+    operand projects - a clause using any other column, even of the very same table, must be refused; one using a
+    provided column must be accepted.  (The AST grammar of vlib.dslgen only queries a set through a reference, so this
+    family is built on the real objects here.)"""
+    import itertools
+
+    from forml.io.dsl import function
+
+    tables = g.catalog()
+    a, twin, b = tables['A'], tables['A2'], tables['B']
+    names = [n for n, _ in g.SCHEMA['A']]
+    clauses = {
+        'select': lambda q, c: q.select(c),
+        'select-expression': lambda q, c: q.select(function.Cast(c, dsl.String()).alias('e')),
+        'where': lambda q, c: q.where(function.NotNull(c)),
+        'groupby': lambda q, c: q.select(c, function.Count(c).alias('n')).groupby(c),
+        'having': lambda q, c: q.select(function.Count(c).alias('n')).having(function.Count(c) > 0),
+        'orderby': lambda q, c: q.orderby(c, 'desc'),
+    }
+    index = 0
+    for kind, size in itertools.product(('union', 'intersection', 'difference'), (1, 2, 3)):
+        for projected in itertools.combinations(names, size):
+            left = a.select(*(a[n] for n in projected))
+            right = twin.select(*(twin[n] for n in projected))
+            for nested in (False, True):
+                statement = getattr(left, kind)(right)
+                if nested:
+                    statement = statement.union(left)
+                for clause, build in clauses.items():
+                    candidates = [(f'provided:{n}', a[n], True) for n in projected]
+                    candidates += [(f'unprovided:{n}', a[n], False) for n in names if n not in projected]
+                    candidates += [(f'right-operand:{projected[0]}', twin[projected[0]], False), ('foreign:w', b['w'], False)]
+                    for label, column, allowed in candidates:
+                        index += 1
+                        case = {'set_query': [kind, list(projected), nested, clause, label]}
+                        if only is not None and case['set_query'] != only:
+                            continue
+                        if only is None and not ctx.mine(index):
+                            continue
+                        ctx.count('evaluations')
+                        ctx.count('set_query_checked')
+                        ctx.shape(('set-query', kind, projected, nested, clause, label.split(':')[0]))
+                        try:
+                            build(statement.query, column)
+                            outcome = 'accepted'
+                        except dsl.GrammarError:
+                            outcome = 'refused'
+                        except Exception as err:  # pylint: disable=broad-except
+                            outcome = f'raised {err!r}'
+                        if outcome == ('accepted' if allowed else 'refused'):
+                            continue
+                        key = ('set-query-rejected-conforming' if allowed else 'set-query-accepted-element-not-provided') if \
+                            outcome in ('accepted', 'refused') else 'set-query-raises'
+                        ctx.violation(key, f'{clause} of {label} on a {"nested " if nested else ""}{kind} projecting {list(projected)}: '
+                                      f'{outcome}', case)
 
 
 def replay(ctx, witness):
@@ -372,6 +431,9 @@ def replay(ctx, witness):
 
     from vlib import dslgen as g
 
+    if 'set_query' in witness:
+        check_set_queries(ctx, g, dsl, only=witness['set_query'])
+        return
     if 'raw_join_kind' in witness:
         check_raw_kind_strings(ctx, g, dsl)
         return
